@@ -1,6 +1,6 @@
 (** The history machine: a few region slots of one catalogue entry driven by untyped operations,
     producing the observations the correspondence check compares with the implementation's. *)
-From FC Require Import Base.Res Index.IC Region.Region Region.Items Model.Wire.
+From FC Require Import Base.Res Index.IC Region.Region Region.Items Resource.Res Model.Wire.
 Set Implicit Arguments.
 
 Inductive op :=
@@ -17,7 +17,8 @@ Inductive op :=
 | OReserveItems (k : nat) (us : list uval)
 | OReserveRegions (k : nat) (ks : list nat)
 | OHeap (k : nat)                              (* heap_size pairs; the model does not predict them here *)
-| OSerde (k : nat).                            (* slot k := deserialize(serialize(slot k)) *)
+| OSerde (k : nat)
+| OAllocs (k : nat).                           (* allocator calls: the implementation's only *)                            (* slot k := deserialize(serialize(slot k)) *)
 
 Inductive obs :=
 | BIdx (i : uval) | BVal (v : uval) | BPanic | BIll | BNone.
@@ -68,7 +69,8 @@ Section Machine.
         let x := get_slot sl k in
         ([BNone], Some (set_slot sl k {| s_st := clear R (s_st x); s_log := [] |}))
     | OMerge d ks =>
-        ([BNone], Some (set_slot sl d {| s_st := merge R (map (fun k => s_st (get_slot sl k)) ks); s_log := [] |}))
+        (* the observation is what merge_regions sizes the new region for: the sources' used bytes *)
+        ([BVal (UL (map UN (fold_left padd (map (fun k => r_used (m_res M) (s_st (get_slot sl k))) ks) [])))], Some (set_slot sl d {| s_st := merge R (map (fun k => s_st (get_slot sl k)) ks); s_log := [] |}))
     | OClone d k | OCloneFrom d k =>
         ([BNone], Some (set_slot sl d (get_slot sl k)))
     | OPushItem d k j owned =>
@@ -92,10 +94,18 @@ Section Machine.
             ([obs_res (let* it := index I (s_st src) i in let* t' := clone_onto I it t in Ok (to_u Wr t'))], Some sl)
         | _, _ => ([BIll], None)
         end
-    | OReserveItems k us => ([BNone], Some sl)
-    | OReserveRegions k ks => ([BNone], Some sl)
-    | OHeap k => ([BNone], Some sl)
+    | OReserveItems k us =>
+        (* bytes each backing vector must be able to hold afterwards: used + announced *)
+        match omap (of_u Wr) us with
+        | None => ([BIll], None)
+        | Some vs => ([BVal (UL (map UN (padd (r_used (m_res M) (s_st (get_slot sl k))) (r_items (m_res M) vs))))], Some sl)
+        end
+    | OReserveRegions k ks =>
+        ([BVal (UL (map UN (fold_left padd (map (fun j => r_used (m_res M) (s_st (get_slot sl j))) ks)
+                                       (r_used (m_res M) (s_st (get_slot sl k))))))], Some sl)
+    | OHeap k => ([BVal (UL (map UN (r_used (m_res M) (s_st (get_slot sl k)))))], Some sl)
     | OSerde k => ([BNone], Some sl)
+    | OAllocs k => ([BNone], Some sl)
     end.
 
   Fixpoint run (sl : list slot) (ops : list op) : list (list obs) :=
